@@ -1,6 +1,6 @@
 (* family 10: CfdpLv, CfdpTlv, the six concrete TLV classes, TlvHolder, status helpers *)
 From Coq Require Import ZArith List Bool.
-From SP Require Import Base.Result Base.Bytes Base.Utf8 Run.Marshal Model.Lv Model.Tlv Spec.TlvSpec.
+From SP Require Import Base.Result Base.Bytes Base.Utf8 Run.Marshal Model.Lv Model.Tlv Model.TlvHist Spec.TlvSpec.
 Import ListNotations.
 Open Scope Z_scope.
 
@@ -59,8 +59,39 @@ Definition fsresp_of_args (a : args) : res fsresp :=
   Ok {| fp_action := int 0 0 a; fp_status := int 0 1 a; fp_first := lst 1 a;
         fp_second := lst 2 a; fp_msg := m |}.
 
+(* ---- live-object histories (Model/TlvHist.v) ----
+   args: [kind; path]; a1 (integers); a2; a3; a4 (octet strings); then one list per operation: code :: payload *)
+Definition hop_of (l : list Z) : hop :=
+  match l with
+  | 0 :: _ => PPack
+  | 1 :: _ => PValue
+  | 2 :: _ => PGenerate
+  | 3 :: v => PSetValue v
+  | 4 :: n :: r => PSetValueInplace (firstn (Z.to_nat n) r) (skipn (Z.to_nat n) r)
+  | 5 :: x :: _ => PSetType x
+  | 6 :: x :: _ => PSetPacketLen x
+  | 7 :: ty :: v => PSetTlv ty v
+  | 8 :: _ => PSetTlvNone
+  | 9 :: x :: _ => PSubType x
+  | 10 :: x :: _ => PSetCc x
+  | 11 :: x :: _ => PSetHc x
+  | 12 :: x :: _ => PSetAction x
+  | 13 :: x :: _ => PSetStatus x
+  | 14 :: v => PSetFirst v
+  | 15 :: v => PSetSecond v
+  | 16 :: v => PSetMsg v
+  | 17 :: v => PSubMsgValue v
+  | _ => PBad
+  end.
+
+Definition run_history (a : args) : args :=
+  ret (fun o => hview o ++
+                flat_map (fun rv => rb (fst rv) :: snd rv) (hrun o (map hop_of (skipn 5 a))))
+      (hnew (int 0 0 a) (int 0 1 a) (lst 1 a) (lst 2 a) (lst 3 a) (lst 4 a)).
+
 Definition run_tlv (op : Z) (a : args) : args :=
   match op with
+  | 1060 => run_history a
   (* LV *)
   | 1000 => ret (fun v => [lv_pack v; [lv_packet_len v]; v]) (lv_new (lst 0 a))
   | 1001 => ret (fun v => [v; [lv_packet_len v]; lv_pack v]) (lv_unpack (lst 0 a))
